@@ -24,6 +24,8 @@ type c08Iter struct {
 	maxN    int
 }
 
+var c08QuickFull = map[string]bool{"[]int": true, "map[string]int": true, "range": true, "iterator": true, "[n]int-all-zero": true, "hash-literal": true}
+
 var c08Ints = []int{10, 20, 30, 40}
 var c08Strs = []string{"p", "q", "r", "s"}
 
@@ -293,6 +295,9 @@ func init() {
 					if !th && n == 4 {
 						continue
 					}
+					if !th && (n == 1 || n == 3) && !c08QuickFull[c08Iters[i].name] {
+						continue // quick tier: lengths 0 and 2 for most iterable kinds, 0..3 for one of each family
+					}
 					s = append(s, fmt.Sprintf("it:%d:%d", i, n))
 				}
 			}
@@ -304,7 +309,7 @@ func init() {
 			if th {
 				return "lengths 0..4, body sequences <=4"
 			}
-			return "lengths 0..3, body sequences <=3"
+			return "lengths 0..3 for []int, map[string]int, hash literal, range, custom Iterator and all-zero arrays, lengths 0 and 2 for the other kinds; body sequences <=3"
 		},
 	})
 }
